@@ -8,6 +8,7 @@ from datetime import datetime
 import numpy as np
 from sympy.codegen.ast import Assignment, AddAugmentedAssignment
 from sympy import symbols, Function, Symbol, Expr, Number as SymNumber
+from sympy import Float as SymFloat
 from sympy.printing.pycode import PythonCodePrinter
 from sympy.codegen.ast import real, FunctionPrototype, FunctionDefinition, Return, FunctionCall as SymFuncCall
 from sympy.utilities.lambdify import _import, _module_present, _get_namespace
@@ -35,8 +36,13 @@ class SolverzCodePrinter(PythonCodePrinter):
     """
 
     def _print_Float(self, expr):
-        if expr._prec == 53 and expr.is_finite:
-            return repr(float(expr))
+        # A Float of at most 53 bits (np.float32 and np.float16 literals arrive with 24 and 11 bits) is a double itself:
+        # print that double. Printing it with its own few digits would move the number (float32(0.1) -> 0.1).
+        if expr._prec <= 53 and expr.is_finite:
+            v = float(expr)
+            # not if it leaves the double range
+            if np.isfinite(v) and SymFloat(v, precision=53)._mpf_ == expr._mpf_:
+                return repr(v)
         return super()._print_Float(expr)
 
     def _print_Pow(self, expr, rational=False):
